@@ -180,6 +180,23 @@ class _Canon(ast.NodeTransformer):
     def visit_Call(self, node: ast.Call):  # noqa: N802
         self.generic_visit(node)
         f = node.func
+        # f(a, *(b, c)) is f(a, b, c); f(**{"k": v}) is f(k=v)
+        if any(isinstance(a, ast.Starred) and isinstance(a.value, (ast.Tuple, ast.List)) and not any(isinstance(x, ast.Starred) for x in a.value.elts) for a in node.args):
+            new_args: list[ast.expr] = []
+            for a in node.args:
+                if isinstance(a, ast.Starred) and isinstance(a.value, (ast.Tuple, ast.List)) and not any(isinstance(x, ast.Starred) for x in a.value.elts):
+                    new_args.extend(a.value.elts)
+                else:
+                    new_args.append(a)
+            node.args = new_args
+        if any(k.arg is None and isinstance(k.value, ast.Dict) and all(isinstance(x, ast.Constant) and isinstance(x.value, str) and x.value.isidentifier() for x in k.value.keys) for k in node.keywords):
+            new_kw: list[ast.keyword] = []
+            for k in node.keywords:
+                if k.arg is None and isinstance(k.value, ast.Dict) and all(isinstance(x, ast.Constant) and isinstance(x.value, str) and x.value.isidentifier() for x in k.value.keys):
+                    new_kw.extend(ast.keyword(arg=x.value, value=v) for x, v in zip(k.value.keys, k.value.values))
+                else:
+                    new_kw.append(k)
+            node.keywords = new_kw
         if isinstance(f, ast.Attribute) and isinstance(f.value, ast.Name) and not node.keywords and len(node.args) == 2 and not any(isinstance(a, ast.Starred) for a in node.args):
             if (f.value.id in ("np", "numpy") and f.attr in ("less", "greater", "less_equal", "greater_equal", "equal", "not_equal")) or \
                     (f.value.id == "operator" and f.attr in ("lt", "gt", "le", "ge", "eq", "ne")):
